@@ -125,7 +125,25 @@ pub fn convert(cmd: &str, p: &Value, frame: Frame) -> Option<R> {
             let raw: Vec<Value> = l.clone().into_raw_values().iter().map(|(t, v)| json!([tagname(t), v.as_bytes()])).collect();
             let owned: Vec<Value> = l.clone().into_iter().map(|v| json!(v.into_bytes())).collect();
             let _ = l.grouped_by().len();
-            json!({"values": vals, "back": back, "owned": owned, "grouped": grouped, "raw": raw})
+            // every iterator adaptor the value iterators override (borrowed and owning): judged against the plain value sequence
+            let ob = |x: Option<&str>| match x { None => json!([]), Some(s) => json!([s.as_bytes()]) };
+            let oo = |x: Option<String>| match x { None => json!([]), Some(s) => json!([s.into_bytes()]) };
+            let mut mixed = vec![];
+            {
+                let mut it = l.clone().into_iter();
+                loop {
+                    match it.next() { Some(v) => mixed.push(json!(v.into_bytes())), None => break }
+                    match it.next_back() { Some(v) => mixed.push(json!(v.into_bytes())), None => break }
+                }
+            }
+            let mut it2 = l.values();
+            let _ = it2.next();
+            let ad = json!({"len": l.values().len(), "count": l.values().count(), "last": ob(l.values().last()), "nth1": ob(l.values().nth(1)), "nthb1": ob(l.values().nth_back(1)),
+                "o_len": l.clone().into_iter().len(), "o_count": l.clone().into_iter().count(), "o_last": oo(l.clone().into_iter().last()),
+                "o_nth1": oo(l.clone().into_iter().nth(1)), "o_nthb1": oo(l.clone().into_iter().nth_back(1)),
+                "o_back": l.clone().into_iter().rev().map(|v| json!(v.into_bytes())).collect::<Vec<_>>(), "mixed": mixed,
+                "len_after_next": it2.len(), "ref_iter": (&l).into_iter().map(|v| json!(v.as_bytes())).collect::<Vec<_>>()});
+            json!({"values": vals, "back": back, "owned": owned, "grouped": grouped, "raw": raw, "ad": ad})
         }),
         "ListGroup1" => cmds::List::new(tag_of(p, 0)).group_by([tag_of(p, 1)]).response(frame).map(|l| {
             let grouped: Vec<Value> = l.grouped_values().map(|(v, g)| json!([v.as_bytes(), Vec::<Vec<u8>>::from_iter(g.iter().map(|x| x.as_bytes().to_vec()))])).collect();
